@@ -245,13 +245,13 @@ func c15Waiters(w *W) {
 		switch kind {
 		case 0:
 			ch := fun.Operation(func(context.Context) { p.body() }).Signal(ctx)
-			<-ch
+			hrecv(ch)
 		case 1:
 			wait := fun.Operation(func(context.Context) { p.body() }).Launch(ctx)
 			wait(ctx)
 		case 2:
 			ch := fun.Worker(func(context.Context) error { p.body(); return errPlanned }).Signal(ctx)
-			got = <-ch
+			got, _ = hrecv(ch)
 		case 3:
 			wait := fun.Worker(func(context.Context) error { p.body(); return errPlanned }).Launch(ctx)
 			got = wait(ctx)
